@@ -214,7 +214,7 @@ def main(run: Run):
     run.functions["amaranth_soc.csr.reg.Register.elaborate"] = "per-configuration (bounded: field collection shapes), all port values"
     run.functions["amaranth_soc.csr.reg.Register.__init__"] = "bounded (runtime contract: width sum, access rejection)"
     run.functions["amaranth_soc.csr.reg.FieldActionMap.flatten / FieldActionArray.flatten"] = "bounded (order compared with an independent walk of the input collection)"
-    run_configs(run, __name__, cfgs)
+    run_configs(run, __name__, cfgs, must_accept=True)
     return run.finish(
         explanation="Register.elaborate contract clauses (packing, slices, strobe fan-out) discharged as QF_BV obligations "
                     "over the NIR netlist for all port values; constructor clauses evaluated natively per configuration. "
